@@ -23,6 +23,8 @@ TECHNIQUE += '; shared-configuration rule (no setter or method of a shared model
 LEVEL_TEXT += ' Added clause: configuration objects held by a model are not rebound or mutated through property setters.'
 TECHNIQUE += '; publish-last rule for lazily cached objects (no call on the object after it was stored where later calls return it)'
 LEVEL_TEXT += ' Added clause: a thread that parses while another thread builds the optimized grammar never receives the unfinished object.'
+TECHNIQUE += '; lossy key components (type(), len(), bool() of an argument in the cache key)'
+LEVEL_TEXT += ' Added clause: no component of the cache key identifies an argument less precisely than the cached value depends on it.'
 LEVEL_NOTE = 'Trusted: dataclasses.replace / ParserConfig.new / Config.override return new objects; id(x) of a dead object can be reused.'
 EXPLANATION = ('Static analysis of /repo sources, TatSu not imported. Def-use chains inside api.compile relate parameters to '
                'the cache key and to the cached value; the package is scanned for shared mutable state and each store site is '
